@@ -32,8 +32,8 @@ def tree_list(tier, which):
             n = int(tid.split('/')[1][1:])
             if n >= minn:
                 out.append((tid, d, versions, ctxmode))
-    if tier == 'quick':
-        if which == 'one':
+    if tier == 'quick' or which == 'deep':   # the deep-chain units use the same trees in both tiers
+        if which in ('one', 'deep'):
             add(2, ['bare', 'rich'], ALLV, 'two')
             add(3, ['bare', 'rich'], V2, 'two', 3)
             add(3, ['cpi', 'ns', 'text'], V2, 'two')
@@ -83,6 +83,9 @@ def path_groups(tier):
                     groups['2|%s|%s|%s' % (pre, ax, ax2)] = ('two', list(PG.with_abbrev(two)))
                 three = PG.three_step(PG.TESTS_RED[1:3], prefixes=[pre], axes_first=[ax])
                 groups['3|%s|%s' % (pre, ax)] = ('three', list(PG.with_abbrev(three)))
+            # chains of three to five predicates on one step (same trees and paths in both tiers)
+            groups['D|%s|%s' % (pre, ax)] = ('deep', list(PG.with_abbrev(PG.one_step(tests=PG.TESTS_RED[:3], preds=PG.PREDS_DEEP,
+                                                                                    prefixes=[pre], axes=[ax]))))
     par = list(PG.with_abbrev(PG.paren_forms(tier)))
     n = 13 if q else 39
     for i in range(n):
